@@ -47,19 +47,27 @@ def build_hierarchy(base, chain):
     import pymbolic.primitives as p
     parent = getattr(p, base)
     classes = []
-    legacy = base == "Expression"      # no dataclass ancestor: legacy protocol for undecorated classes
+    mixin = None
     for c in chain:
         ns = {}
         if c["own"]:
             ns["mapper_method"] = c["own"]
-        if legacy and not c["deco"]:
+        if c.get("mix"):
+            bases = (p.Expression,)
+        else:
+            bases = (parent,) if mixin is None else (mixin, parent)
+        # no dataclass among the ancestors: legacy protocol for undecorated classes
+        if not c["deco"] and not any(hasattr(b, "__dataclass_fields__") for b in bases):
             ns["init_arg_names"] = ()
             ns["__getinitargs__"] = lambda self: ()
-        cls = type(c["name"], (parent,), ns)
+        cls = type(c["name"], bases, ns)
         if c["deco"]:
             cls = p.expr_dataclass()(cls)
         classes.append(cls)
-        parent = cls
+        if c.get("mix"):
+            mixin = cls
+        else:
+            parent, mixin = cls, None
     if len(_HIER_CACHE) > 2000:
         _HIER_CACHE.clear()
     _HIER_CACHE[key] = classes
